@@ -290,6 +290,22 @@ func (h *H) phaseLimits(shard, shards int) {
 				Replay: h.spec("limits", 0, map[string]any{"kind": c.kind, "field": c.field, "size": c.n})})
 			continue
 		}
+		// the typed model (type tables, felt limbs, key order) encodes and decodes the same value
+		if c.kind != "nesting" && c.n <= 65537 {
+			mode := h.decoderMode()
+			switch v := c.v.(type) {
+			case *core.DeclaredClassDefinition:
+				cv := reflect.New(tClsIface).Elem()
+				cv.Set(reflect.ValueOf(v.Class))
+				h.typedCase(storable{"ClassDefinition", tClsIface}, 0, cv, mode)
+			case *core.StateUpdate:
+				h.typedCase(storable{"StateUpdate", reflect.TypeOf(core.StateUpdate{})}, 0, reflect.ValueOf(*v), mode)
+			case core.Transaction:
+				tv := reflect.New(tTxIface).Elem()
+				tv.Set(reflect.ValueOf(v))
+				h.typedCase(storable{"Transaction", tTxIface}, 0, tv, mode)
+			}
+		}
 		// the model reproduces the bytes (data-model level), whatever the size
 		if c.kind != "nesting" && c.n <= 65537 {
 			inner := enc
